@@ -11,7 +11,7 @@ def run(ctx):
     report = ctx["report"]
     rng = random.Random(ctx["seed"] + 1501)
     viol, corr = [], []
-    n = 250 if ctx["tier"] == "quick" else 5000
+    n = 250 * min(2, nv.boost("engine")) if ctx["tier"] == "quick" else 5000
     base = gen_cases(rng, n, with_opt=True, limit_prob=0.15)
     # a history: the same cases, shuffled, each one twice, interleaved with registrations, abandoned generators
     # (the `limit` cases) and solvers rebuilt on a reused problem object
